@@ -264,6 +264,11 @@ def _iterable(it):
             d = it[1][1]
             return ("fam", d[1], {"items": mk_tuple((d[2], d[3])), "keys": d[2], "values": d[3]}[it[1][2]])
         return (it[1][2], it[1][1]) if it[1][2] != "keys" else it[1][1]
+    # xs[::-1] is reversed(xs)
+    if is_t(it, "index") and it[2] == ("sliceobj", C(None), C(None), C(-1)):
+        return ("reversed", _iterable(it[1]))
+    if is_t(it, "call") and it[1] == G("reversed") and len(it[2]) == 1 and not it[3]:
+        return ("reversed", _iterable(it[2][0]))
     if is_t(it, "call") and it[1] == G("zip") and not it[3]:
         return ("zip", tuple(_iterable(x) for x in it[2]))
     if is_t(it, "call") and it[1] == G("enumerate") and len(it[2]) >= 1:
@@ -1461,6 +1466,10 @@ class _Ctx:
             # jax.util.split_list(xs, [n]) is (xs[:n], xs[n:])
             n_ = args[1][1][0]
             return mk_tuple((("index", args[0], ("sliceobj", C(None), n_, C(None))), ("index", args[0], ("sliceobj", n_, C(None), C(None)))))
+        if name in ("functools.reduce", "reduce") and len(args) == 3 and not kwargs:
+            # functools.reduce(f, xs, init) is the loop `acc = init; for x in xs: acc = f(acc, x)`
+            it_ = _iterable(args[1])
+            return ("loop", it_, args[2], self.call_value(args[0], [args[2], mk_elem(it_)], {}))
         if short == "reversed" and len(args) == 1:
             return ("reversed", args[0])
         if short == "isinstance" and len(args) == 2:
